@@ -8,6 +8,12 @@ package breaker
 //
 // Events: reset{t,fair,eager} adv{d} callStart{c,api,ctx,acc} reqStart{c} reqEnd{c,out} fbRun{c,arg}
 // callEnd{c,ret,pan} pStart{c,how} pEnd{c} obs{w:[succ,fail,drop]}   (times in ms)
+// out: what the request does -- ok | err | accErr | panic, and the look-alikes of the breaker's own
+// results: unavail (returns breaker.ErrServiceUnavailable itself), wrapUnavail (returns an error
+// wrapping it, as a request that went through a second, open breaker would), ctxErr (returns
+// context.Canceled / DeadlineExceeded although the call's own context is live), panicUnavail
+// (panics with ErrServiceUnavailable).  ret "same" / pan "same": what came out of the breaker is
+// identical (==) to what the request of THIS call returned / panicked with.
 // Events of calls made through the by-name entry points (breakers.go) also carry n = the name;
 // see zz_verif_c01_names_test.go for the registry rounds.
 
@@ -85,16 +91,20 @@ type c01Op struct {
 }
 
 type c01Call struct {
-	op      c01Op
-	id      int
-	errv    *c01Err
-	fbErr   *c01Err
-	panv    *c01Pan
-	gate    chan struct{}
-	runs    atomic.Int32
-	promise Promise
-	emit    func(verifEv) // nil: the shared emitter
-	name    string        // non-empty: the call goes through the by-name entry points (breakers.go)
+	op       c01Op
+	id       int
+	errv     *c01Err
+	fbErr    *c01Err
+	panv     *c01Pan
+	wrapv    error // wraps ErrServiceUnavailable (out = wrapUnavail)
+	gate     chan struct{}
+	runs     atomic.Int32
+	ran      bool  // the request returned (returned = its result) or panicked (panicked = the value)
+	ret      error // what the request returned
+	panicked any
+	promise  Promise
+	emit     func(verifEv) // nil: the shared emitter
+	name     string        // non-empty: the call goes through the by-name entry points (breakers.go)
 }
 
 type c01Sig struct {
@@ -171,7 +181,8 @@ func (h *c01H) newCall(op c01Op) *c01Call {
 	if op.Acc == nil {
 		op.Acc = []string{}
 	}
-	return &c01Call{op: op, id: id, errv: &c01Err{id}, fbErr: &c01Err{-id}, panv: &c01Pan{id}, name: h.name}
+	return &c01Call{op: op, id: id, errv: &c01Err{id}, fbErr: &c01Err{-id}, panv: &c01Pan{id}, name: h.name,
+		wrapv: fmt.Errorf("c01 downstream call %d: %w", id, ErrServiceUnavailable)}
 }
 
 // emitter: where the events of this call go; events of by-name calls carry the name.
@@ -231,13 +242,26 @@ func (h *c01H) run(c *c01Call, async bool) {
 			<-c.gate
 		}
 		emit(verifEv{"e": "reqEnd", "c": c.id, "out": op.Out})
+		c.ran = true
 		switch op.Out {
 		case "ok":
-			return nil
+			c.ret = nil
 		case "panic":
+			c.panicked = c.panv
 			panic(c.panv)
+		case "panicUnavail":
+			c.panicked = ErrServiceUnavailable
+			panic(ErrServiceUnavailable)
+		case "unavail":
+			c.ret = ErrServiceUnavailable
+		case "wrapUnavail":
+			c.ret = c.wrapv
+		case "ctxErr":
+			c.ret = []error{context.Canceled, context.DeadlineExceeded}[c.id%2]
+		default:
+			c.ret = c.errv
 		}
-		return c.errv
+		return c.ret
 	}
 	fallback := func(err error) error {
 		arg := "other"
@@ -251,7 +275,7 @@ func (h *c01H) run(c *c01Call, async bool) {
 		if err == nil {
 			return c.accepts("ok")
 		}
-		if err == error(c.errv) {
+		if c.ran && c.ret != nil && err == c.ret {
 			return c.accepts(op.Out)
 		}
 		return false
@@ -260,7 +284,7 @@ func (h *c01H) run(c *c01Call, async bool) {
 		switch {
 		case err == nil:
 			return "nil"
-		case err == error(c.errv):
+		case c.ran && c.ret != nil && err == c.ret:
 			return "same"
 		case err == ErrServiceUnavailable:
 			return "unavail"
@@ -303,7 +327,7 @@ func (h *c01H) run(c *c01Call, async bool) {
 	func() {
 		defer func() {
 			if r := recover(); r != nil {
-				if r == any(c.panv) {
+				if c.ran && c.panicked != nil && r == c.panicked {
 					pan = "same"
 				} else {
 					pan = "other"
@@ -536,7 +560,16 @@ func TestVerifC01Replay(t *testing.T) {
 
 var c01Apis = []string{"do", "doAcc", "doFb", "doFbAcc", "allow"}
 var c01Ctxs = []string{"none", "none", "none", "live", "live", "done"}
-var c01AccSets = [][]string{{"ok"}, {"ok", "accErr"}, {"ok", "accErr"}, {"ok", "err", "accErr"}, {"accErr"}, {}}
+var c01AccSets = [][]string{{"ok"}, {"ok", "accErr"}, {"ok", "accErr"}, {"ok", "err", "accErr"}, {"accErr"}, {},
+	{"ok", "unavail", "wrapUnavail"}, {"ok", "accErr", "ctxErr"}}
+
+// look-alikes of the breaker's own results among the failing outcomes (see the header)
+var c01LookAlikes = []string{"unavail", "wrapUnavail", "wrapUnavail", "ctxErr"}
+
+// parallel bursts (stress, by-name rounds): contexts (a done context now and then: such a call
+// touches nothing, whoever it races with) and the outcomes of an all-failing burst
+var c01BurstCtxs = []string{"none", "none", "none", "live", "live", "live", "live", "done"}
+var c01BurstFails = []string{"err", "err", "err", "accErr", "accErr", "panic", "panic", "wrapUnavail", "unavail", "panicUnavail"}
 
 func c01Gap(rnd *rand.Rand, h *c01H) int {
 	switch x := rnd.Intn(100); {
@@ -568,6 +601,12 @@ func c01RandCall(rnd *rand.Rand, pOK, pAcc int) c01Op {
 		op.Out = "panic"
 	default:
 		op.Out = "err"
+	}
+	switch {
+	case op.Out == "err" && rnd.Intn(6) == 0:
+		op.Out = c01LookAlikes[rnd.Intn(len(c01LookAlikes))]
+	case op.Out == "panic" && rnd.Intn(4) == 0:
+		op.Out = "panicUnavail"
 	}
 	if op.Api == "doAcc" || op.Api == "doFbAcc" {
 		op.Acc = c01AccSets[rnd.Intn(len(c01AccSets))]
@@ -745,7 +784,7 @@ func TestVerifC01Stress(t *testing.T) {
 		work := make([][]*c01Call, G)
 		for g := 0; g < G; g++ {
 			for k := 0; k < per; k++ {
-				op := c01Op{Op: "call", Api: c01Apis[rnd.Intn(len(c01Apis))], Ctx: []string{"none", "live"}[rnd.Intn(2)]}
+				op := c01Op{Op: "call", Api: c01Apis[rnd.Intn(len(c01Apis))], Ctx: c01BurstCtxs[rnd.Intn(len(c01BurstCtxs))]}
 				if good {
 					op.Out, op.How = "ok", "accept"
 					if (op.Api == "doAcc" || op.Api == "doFbAcc") && rnd.Intn(2) == 0 {
@@ -753,7 +792,7 @@ func TestVerifC01Stress(t *testing.T) {
 					}
 					op.Acc = []string{"ok", "accErr"}
 				} else {
-					op.Out, op.How = []string{"err", "err", "accErr", "panic"}[rnd.Intn(4)], "reject"
+					op.Out, op.How = c01BurstFails[rnd.Intn(len(c01BurstFails))], "reject"
 					op.Acc = []string{"ok"}
 				}
 				if op.Api == "do" || op.Api == "doFb" || op.Api == "allow" {
